@@ -789,8 +789,7 @@ func TestVerif_C04_connseq(t *testing.T) {
 	defer log.SetOutput(log.Writer())
 	log.SetOutput(io.Discard) // "Unsolicited response received on idle HTTP channel" (both transports)
 	hangs := 0
-	for i := 0; i < n && hangs < 4; i++ {
-		c := c04sGenCase(r, g)
+	runCase := func(i int, c c04sCase) {
 		s.Begin(c.line(), c.human())
 		fork, ref := c04sRunBoth(c, 0)
 		// The unsolicited-bytes check is a race between the read loop and the caller's next
@@ -845,10 +844,22 @@ func TestVerif_C04_connseq(t *testing.T) {
 		human += dumpNote
 		s.Case(c.line(), fork, fork == ref && dumpNote == "", "", nOK >= 2, human)
 	}
+	// the keep-alive matrix first (deterministic, independent of VERIF_SEED): every combination of
+	// the factors of the reuse decision in an otherwise clean two-request sequence
+	for i, c := range c04sMatrix() {
+		if hangs >= 4 {
+			break
+		}
+		cnt("matrix")
+		runCase(3*i+1, c) // (no dump-on re-run for these)
+	}
+	for i := 0; i < n && hangs < 4; i++ {
+		runCase(i, c04sGenCase(r, g))
+	}
 	s.Finish()
 	for _, need := range []string{"gen:101-plain", "gen:101-upgrade", "gen:status<100", "gen:1.0", "gen:1.0-keep-alive", "gen:conn-close", "gen:chunked", "gen:trailer", "gen:HEAD",
 		"gen:1xx-burst", "gen:1xx-too-many", "gen:100-continue", "gen:unsolicited", "gen:switch-raw-bytes", "gen:hostile", "gen:idle-closed", "gen:early-close", "gen:partial-read", "gen:req-close",
-		"gen:until-close", "gen:msg-then-eof", "gen:split-early", "gen:split-at-head", "dump-on-run", "dials=1", "dials=2", "dials=3", "view:end=eof", "view:end=err", "view:end=closed", "view:raw", "view:fail"} {
+		"gen:until-close", "gen:msg-then-eof", "gen:split-early", "gen:split-at-head", "dump-on-run", "matrix", "dials=1", "dials=2", "dials=3", "view:end=eof", "view:end=err", "view:end=closed", "view:raw", "view:fail"} {
 		if reached[need] == 0 {
 			t.Errorf("C04/connseq never reached %q", need)
 		}
@@ -910,4 +921,69 @@ func TestVerifDbg_C04_connseq(t *testing.T) {
 			t.Logf("%s x%d: %s", x.n, k, a)
 		}
 	}
+}
+
+// c04sMatrix: two-request sequences [q, GET] over every combination of status x framing x protocol
+// x Connection value x method x body consumption x leftover behind the message. conn0 holds the
+// message and a filler for the second request, conn1 a filler: the answer shows on which
+// connection the second request was served.
+func c04sMatrix() []c04sCase {
+	var out []c04sCase
+	body := "c0s0:body"
+	for _, status := range []string{"200", "204", "304", "101", "101-upgrade", "042", "099", "500"} {
+		for _, framing := range []string{"len", "chunked", "cl0"} {
+			for _, proto := range []string{"HTTP/1.1", "HTTP/1.0"} {
+				for _, conn := range []string{"", "close", "keep-alive", "x, Close", "keep-alive, close"} {
+					for _, method := range []string{"GET", "HEAD"} {
+						for _, part := range []int{-1, 0, 1} {
+							for _, leftover := range []string{"", "x"} {
+								if framing == "chunked" && proto == "HTTP/1.0" {
+									continue // Transfer-Encoding is ignored on 1.0: the body would be until close
+								}
+								code := status
+								hdr := ""
+								if status == "101-upgrade" {
+									code = "101"
+									hdr += "Upgrade: verif\r\n"
+									if conn == "" {
+										hdr += "Connection: Upgrade\r\n"
+									} else {
+										hdr += "Connection: Upgrade, " + conn + "\r\n"
+									}
+								} else if conn != "" {
+									hdr += "Connection: " + conn + "\r\n"
+								}
+								noBody := code == "204" || code == "304" || code == "101" || method == "HEAD"
+								wireBody := ""
+								switch framing {
+								case "len":
+									hdr += "Content-Length: " + strconv.Itoa(len(body)) + "\r\n"
+									wireBody = body
+								case "chunked":
+									hdr += "Transfer-Encoding: chunked\r\n"
+									wireBody = "4\r\n" + body[:4] + "\r\n5\r\n" + body[4:] + "\r\n0\r\n\r\n"
+								case "cl0":
+									hdr += "Content-Length: 0\r\n"
+								}
+								if noBody {
+									wireBody = ""
+								}
+								msg := proto + " " + code + " S\r\n" + hdr + "\r\n" + wireBody + leftover
+								q := c04sReq{method: method, part: part, readSize: 512}
+								if status == "101-upgrade" {
+									q.rawN = len(leftover)
+								}
+								out = append(out, c04sCase{
+									reqs:    []c04sReq{q, {method: "GET", part: -1, readSize: 512}},
+									scripts: []c04sScript{{segs: []string{msg, c04sFiller("c0s1")}}, {segs: []string{c04sFiller("c1s0")}}},
+									B:       4096,
+								})
+							}
+						}
+					}
+				}
+			}
+		}
+	}
+	return out
 }
